@@ -129,6 +129,7 @@ class Program:
         self.structs = {"Range": ["start", "end"], "RangeFrom": ["start"], "RangeTo": ["end"],
                         "RangeInclusive": ["start", "end"]}
         self.unit_variants = {}  # variant name -> (enum, discr) for bare-identifier aggregates
+        self.struct_field_types = {}
         self._read_types()
         self._index_functions()
         self._resolve_cache = {}
@@ -173,12 +174,15 @@ class Program:
                 name = m.group(1)
                 j = find_matching(src, m.end() - 1)
                 fields = []
+                ftypes = {}
                 for f in split_top(src[m.end():j]):
                     f = re.sub(r"#\[[^\]]*\]", "", f).strip()
-                    fm = re.match(r"(?:pub(?:\([^)]*\))?\s+)?(\w+)\s*:", f)
+                    fm = re.match(r"(?:pub(?:\([^)]*\))?\s+)?(\w+)\s*:\s*(.*)$", f, re.S)
                     if fm:
                         fields.append(fm.group(1))
+                        ftypes[fm.group(1)] = fm.group(2).strip()
                 self.structs[name] = fields
+                self.struct_field_types[name] = ftypes
         for en, vs in self.enums.items():
             for vn, d in vs.items():
                 self.unit_variants.setdefault(vn, (en, d))
